@@ -1,4 +1,28 @@
-(* placeholder until the proofs are integrated *)
-From DictIO Require Import Chars Str Value Scalar.
-Theorem C06_placeholder : True. Proof. exact I. Qed.
-Print Assumptions C06_placeholder.
+(* C06  Include merging (logic part; completeness / precedence over whole graphs is established per run by the
+   check against an independent closure fold, see DESIGN.md). *)
+From Coq Require Import NArith ZArith List Bool.
+From DictIO Require Import Chars Str Value Scalar SDict Lexer TokParser Reader TreeSpec LayoutSpec SemProofs.
+Import ListNotations.
+
+(* with include processing switched off no include entry is returned *)
+Theorem C06_off_no_include_entry : forall fs root com c s c',
+  read_plain fs root false com c = Ok (s, c') ->
+  forallb (fun kv => match fst kv with KS k => negb (has_include_mark k) | KI _ => true end) (sd_data s) = true.
+Proof. exact read_off_no_include. Qed.
+Print Assumptions C06_off_no_include_entry.
+
+(* a file that is already on the current include chain is never parsed again: the recursion is cut there *)
+Theorem C06_chain_cut : forall p chain, in_chain p (chain ++ [p]) = true.
+Proof. exact chain_cut. Qed.
+Print Assumptions C06_chain_cut.
+
+(* include paths are anchored at the directory of the file that contains the directive *)
+Theorem C06_anchor : forall dirc name, name <> [] -> (match name with c :: _ => (c =? c_slash)%N = false | [] => True end) ->
+  path_join dirc name = dirc ++ [c_slash] ++ name.
+Proof. exact include_anchor. Qed.
+Print Assumptions C06_anchor.
+
+(* path normalisation used to recognise a file that is reached twice is idempotent *)
+Theorem C06_norm_idem : forall p, norm_path (norm_path p) = norm_path p.
+Proof. exact norm_path_idem. Qed.
+Print Assumptions C06_norm_idem.
